@@ -567,6 +567,10 @@ def frame_derive():
     one('relabel_columns', lambda T: T.relabel(columns=lambda x: ('re', x)))
     one('relabel_index', lambda T: T.relabel(index=lambda x: ('re', x)))
     one('rename', lambda T: T.rename('renamed'))
+    one('relabel_level_add_index', lambda T: T.relabel_level_add(index='L'))
+    one('relabel_level_add_columns', lambda T: T.relabel_level_add(columns='L'))
+    one('relabel_shift_in', lambda T: T.relabel_shift_in(c0(T)))
+    one('clip', lambda T: T.clip(lower=0) if all(k in 'iuf' for k in (d.kind for d in T.dtypes.values)) else T.head(len(T)))
     one('rename_axes', lambda T: T.rename(index='i', columns='c'))
     one('sort_columns', lambda T: T.sort_columns(ascending=False))
     one('sort_index', lambda T: T.sort_index(ascending=False))
